@@ -56,11 +56,21 @@ Proof. exact vtt_split_by_layout. Qed.
 Print Assumptions C12_vtt_split_by_layout.
 
 (* the same on arbitrary node lists: BREAK nodes, styled and empty STYLE nodes anywhere between and around the text nodes
-   (the shape of every generated multi-line caption); hypothesis: every text node carries a layout, at least one text *)
-Theorem C12_vtt_split_by_layout_general : forall nodes, texts_have_layouts nodes -> text_layouts nodes <> [] ->
+   (the shape of every generated multi-line caption); hypotheses: every text node carries a layout, at least one text, and
+   every positioned span (STYLE START node with a layout) opens on a text node of its own layout - the writer lets such a
+   span open the next cue (C12_vtt_span_opens_next_group), so with this hypothesis the cues are still the runs of text layouts *)
+Theorem C12_vtt_split_by_layout_general : forall nodes, texts_have_layouts nodes -> spans_follow nodes -> text_layouts nodes <> [] ->
   vtt_groups nodes = map Some (runs_last (text_layouts nodes)).
 Proof. exact vtt_split_by_layout_general. Qed.
 Print Assumptions C12_vtt_split_by_layout_general.
+
+(* a positioned span after text of another layout: the text's group is closed at the span's START node and the span
+   (tag included) opens the next cue, positioned by the span's layout *)
+Theorem C12_vtt_span_opens_next_group : forall k a l t, style_start k = true -> layout_truthy a = true -> layout_truthy l = true ->
+  layout_eqb l a = false ->
+  vtt_groups_aux (mkNode k (Some l) :: t) true (Some a) = Some a :: vtt_groups_aux t (style_tags k) (Some l).
+Proof. exact vtt_span_opens_next_group. Qed.
+Print Assumptions C12_vtt_span_opens_next_group.
 
 (* facts about the spec functions runs_last / runs_members (what "one cue per maximal run" means): *)
 Theorem C12_vtt_cues_adjacent_distinct : forall ls, adj_distinct (runs_last ls).
@@ -227,8 +237,25 @@ Example C12_ex_split_general :
   /\ runs_last (text_layouts nodes) = [l (2 # 2); l (5 # 1)].
 Proof. vm_compute. repeat split. Qed.
 (* a caption of styled STYLE nodes only still gives one cue (the tags make the cue text non-empty) *)
-Example C12_ex_style_only : vtt_groups [mkNode 2 None; mkNode 2 None] = [None] /\ vtt_groups [mkNode 4 None; mkNode 4 None] = [].
+Example C12_ex_style_only : vtt_groups [mkNode 2 None; mkNode 5 None] = [None] /\ vtt_groups [mkNode 4 None; mkNode 6 None] = [].
 Proof. split; reflexivity. Qed.
+(* positioned spans: text aa (layout 1), break, <i> span with layout 2 holding text bb.
+   - bb carries the span's layout (what the readers produce): two cues, the span opens the second one;
+   - bb carries no layout of its own (known finding C12-vtt-span-layout-ignored): THREE groups - aa, a cue holding only the
+     opening tag (the span's layout), and bb with the closing tag positioned by the caption's / language's layout;
+   - bb carries the layout of aa although its span has layout 2: three groups as well (outside spans_follow) *)
+Example C12_ex_span_groups :
+  let l v := mkLayout (Some (mkPoint (mkSize v PCT) (mkSize v PCT))) None None None None in
+  let nodes b := [mkNode 1 (Some (l (1 # 1))); mkNode 3 None; mkNode 2 (Some (l (2 # 1))); mkNode 1 b; mkNode 5 (Some (l (2 # 1)))] in
+  vtt_groups (nodes (Some (l (2 # 1)))) = [Some (l (1 # 1)); Some (l (2 # 1))]
+  /\ vtt_groups (nodes None) = [Some (l (1 # 1)); Some (l (2 # 1)); None]
+  /\ vtt_groups (nodes (Some (l (1 # 1)))) = [Some (l (1 # 1)); Some (l (2 # 1)); Some (l (1 # 1))]
+  /\ spans_follow (nodes (Some (l (2 # 1)))).
+Proof.
+  vm_compute. split; [reflexivity|]. split; [reflexivity|]. split; [reflexivity|].
+  repeat (split; try (intros; discriminate); try (intros N1 N3; exfalso; (apply N1 + apply N3); reflexivity)).
+  intros _ _ _ l0 E _. inversion E; subst l0. eexists. split; reflexivity.
+Qed.
 (* set-level layout: found only when an equal layout has a region *)
 Example C12_ex_set_level :
   let s v := mkSize v PCT in
